@@ -1,8 +1,8 @@
 INIT Init
 NEXT Next
 CONSTANTS
-  Sigs = {1, 15, 16, 17}
-  Exps = {-324, -300, -7, -6, -5, -4, -1, 0, 15, 16, 20, 21, 300, 308}
-  Pats = {"mixed", "nines"}
+  Sigs <- SigsQuick
+  Exps <- ExpsQuick
+  Pats <- PatsQuick
 CONSTRAINT Emit
 CHECK_DEADLOCK FALSE
